@@ -16,7 +16,7 @@ TRUSTED = {
     'A8': 'A8 termination of display_width\'s loop: the proved invariant shows remaining() strictly shrinks, but Verus forbids prophetic values in '
           'decreases (exec_allows_no_decreases_clause on that one function)',
     'A9': 'A9 tiling contracts of the closure-based callees: word ++ whitespace concatenate to the line. For the ASCII separator this is PROVED (unit U13, '
-          'find_words_ascii_space after closure conversion R16); for split_words it is PROVED (unit U14) relative to the assumed shape of WordSplitter::split_points; for the Unicode separator and break_apart it is assumed in Verus and checked exhaustively within scope by BEC (C11/C12 contracts)',
+          'find_words_ascii_space after closure conversion R16); for split_words it is PROVED (unit U14) relative to the assumed shape of WordSplitter::split_points, for break_apart it is PROVED (unit U15); for the Unicode separator it is assumed in Verus and checked exhaustively within scope by BEC (C11/C12 contracts)',
     'A10': 'A10 str slicing in wrap\'s reassembly is proved range-safe; char-boundary safety of &line[idx..idx+len] is checked by BEC only',
     'A11': 'A11 stated preconditions: wrap_optimal_fit: fragments.len() < usize::MAX; wrap_columns: columns <= isize::MAX and '
            'display_width(middle_gap)*(columns-1) <= usize::MAX (the "result could not fit in memory" exemption made precise)',
@@ -34,7 +34,7 @@ KANI = {'K1.default': K1, 'K1.no-default-features': K1MIN}
 
 PROPS = {
     'C01': {
-        'units': ['U11', 'U6', 'U1', 'U13', 'U14'], 'level': 'other', 'trusted': ['A1', 'A3', 'A4', 'A5', 'A9', 'A10', 'A12', 'R15', 'R16'],
+        'units': ['U11', 'U6', 'U1', 'U13', 'U14', 'U15'], 'level': 'other', 'trusted': ['A1', 'A3', 'A4', 'A5', 'A9', 'A10', 'A12', 'R15', 'R16'],
         'proved_part': 'Verus (all inputs): wrap_single_line_slow_path appends, for an ordered partition (runs) of a tiling of the line, exactly '
                        'indent_k ++ line[a_k .. a_k+len_k] ++ penalty_k with a_k = bytes of all earlier runs (whitespace included) and len_k = bytes of run k minus its last '
                        'whitespace — so slices are in order, never overlap, and only trailing whitespace of each run is skipped; earlier lines are untouched; Word::from is lossless '
@@ -63,7 +63,7 @@ PROPS = {
         'explanation': 'Mixed: the cost model and the structure are proved; minimality is bounded-only (Verus has no float theory; SMAWK\'s guarantee needs total monotonicity).',
     },
     'C04': {
-        'units': ['U1', 'U2', 'U3', 'U4', 'U5', 'U6', 'U8', 'U10', 'U11', 'U12', 'U13', 'U14'], 'level': 'other', 'kani': [K1, K1MIN],
+        'units': ['U1', 'U2', 'U3', 'U4', 'U5', 'U6', 'U8', 'U10', 'U11', 'U12', 'U13', 'U14', 'U15'], 'level': 'other', 'kani': [K1, K1MIN],
         'trusted': ['A1', 'A2', 'A3', 'A4', 'A5', 'A6', 'A7', 'A8', 'A9', 'A10', 'A11', 'A12', 'R15'],
         'proved_part': 'Verus: absence of panics (index/slice bounds incl. char boundaries in NonEmptyLines, arithmetic overflow, unwrap on None, callee preconditions) and '
                        'termination for wrap_first_fit, wrap_optimal_fit (Err only from the is_infinite test), skip_ansi_escape_sequence, display_width (A8), NonEmptyLines::next, '
@@ -127,18 +127,22 @@ PROPS = {
                        'depends on the external UAX #14 implementation and is checked by bounded exhaustive enumeration.',
     },
     'C12': {
-        'units': ['U6', 'U14'], 'level': 'other', 'trusted': ['A3', 'A4', 'A9', 'A12', 'R15'],
+        'units': ['U6', 'U14', 'U15'], 'level': 'other', 'trusted': ['A3', 'A4', 'A9', 'A12', 'R15'],
         'proved_part': 'Verus: break_words (at I = Vec) is lossless and the identity when no word is wider than the limit. split_words (U14, both closures after closure '
                        'conversion R16), for every word and every list of split points that is strictly increasing and made of char boundaries inside the word: the pieces are '
                        'word[p_(k-1)..p_k], they concatenate to the word, a piece followed by another gets "-" exactly when the text before the cut does not end in \'-\', the last '
-                       'piece carries the original whitespace and penalty, every cached width is the display width.',
-        'bounded_part': 'BEC: split_points of the hyphen splitter (== the statement\'s split points), break_apart (every clause of the second half), and split_words again by execution.',
-        'explanation': 'Mixed: the dispatch and the whole splitting half are proved relative to the assumed shape of the split points; the hyphen splitter\'s points and '
-                       'force-breaking (break_apart) are checked by bounded exhaustive enumeration.',
+                       'piece carries the original whitespace and penalty, every cached width is the display width. Word::break_apart (U15, closure conversion), for every '
+                       'word and limit: pieces are consecutive non-empty runs between fresh positions (never inside an escape sequence), cached width == display width, '
+                       '<= limit unless the whole width comes from one character, maximal (the next piece starts with visible text that would not have fitted), inner pieces '
+                       'without whitespace/penalty, the last one with the word\'s.',
+        'bounded_part': 'BEC: split_points of the hyphen splitter (== the statement\'s split points), and every clause again by execution on the real functions.',
+        'explanation': 'Mixed, almost entirely proved: dispatch, splitting and force-breaking are proved for all inputs (the closures via conversion R16) relative to the assumed '
+                       'shape of the split points and the std contracts of char_indices / slicing; only the hyphen splitter\'s own split points are bounded-only.',
     },
     'C13': {
-        'units': ['U3'], 'level': 'other', 'trusted': ['A2', 'A8', 'A12'],
-        'proved_part': 'Verus lemma: well-formed sequences contribute nothing to display_width, so coloured and stripped words have equal widths.',
+        'units': ['U3', 'U15'], 'level': 'other', 'trusted': ['A2', 'A4', 'A8', 'A12', 'R16'],
+        'proved_part': 'Verus lemma: well-formed sequences contribute nothing to display_width, so coloured and stripped words have equal widths. Force-breaking (U15, '
+                       'Word::break_apart after closure conversion) cuts only at fresh positions of the word — never inside an escape sequence, none is dropped.',
         'bounded_part': 'BEC: strip(wrap(coloured)) == wrap(strip(coloured)); no sequence cut or dropped.',
         'explanation': 'Mixed: width-neutrality of sequences is proved; the end-to-end statement is relational and bounded.',
     },
